@@ -182,6 +182,38 @@ theorem cex_ingest_limit_addend :
     accepts true (ingestLimit true 4 4096) 4100 = true ∧ readable 4096 4100 = false ∧
     accepts false (ingestLimit false 0 4096) 9000 = true := by decide
 
+/-- the size test is applied to every event of the packet (regenerated: it is a statement of the validation loop's body and no
+continue / goto / break before it lets an event pass without it) -/
+theorem ingest_size_test_on_every_event : Generated.C13.ingestSizeTestOnEveryEvent = true := by decide
+
+/-- **Every event of an acknowledged packet fits the reader's buffer**, whatever fields texts its neighbours carry -/
+theorem acked_packet_fits_reader (addend mrs : Nat) (hm : 0 < mrs) :
+    ∀ (evs : List (Bytes × Nat)) (last : Option Bytes),
+      packetAccepts Generated.C13.ingestSizeTestOnEveryEvent Generated.C13.ingestSizeTestRejectsAbove
+        (ingestLimit Generated.C13.ingestLimitHasAddend addend mrs) last evs = true →
+      ∀ e ∈ evs, readable mrs e.2 = true := by
+  intro evs
+  induction evs with
+  | nil => intro _ _ e he; cases he
+  | cons ev rest ih =>
+    intro last h e he
+    obtain ⟨txt, sz⟩ := ev
+    rw [packetAccepts, ingest_size_test_on_every_event] at h
+    simp only [Bool.not_true, Bool.false_and, Bool.false_eq_true, if_false, Bool.and_eq_true] at h
+    rcases List.mem_cons.mp he with rfl | hr
+    · exact acked_record_fits_reader addend mrs sz hm h.1
+    · exact ih (some txt) (by rw [ingest_size_test_on_every_event]; exact h.2) e hr
+
+example : packetAccepts true true 4096 none [([], 20), ([], 4096)] = true ∧ packetAccepts true true 4096 none [([], 20), ([], 4097)] = false := by decide
+
+/-- the memoising loop (kernel-evaluated): an oversize event directly behind an event with the same fields text — the empty one
+too — is acknowledged; first in the packet, or behind another text, it is refused -/
+theorem cex_size_test_skipped_for_equal_fields_text :
+    packetAccepts false true 4096 none [([], 20), ([], 9000)] = true ∧
+    packetAccepts false true 4096 none [([107, 61, 118], 20), ([107, 61, 118], 9000)] = true ∧
+    packetAccepts false true 4096 none [([], 9000), ([], 20)] = false ∧
+    packetAccepts false true 4096 none [([107, 61, 118], 20), ([], 9000)] = false := by decide
+
 /-- **No decoded string outlives the buffer it points into** (request side): no server handler of api/rpc both decodes its body
 without copying and gives the body back to the pool; and the fact is about something — the query handler does decode without copying. -/
 theorem request_strings_do_not_outlive_buffer :
